@@ -32,6 +32,7 @@ def parse_answer(a):
             f, n, v = s.split("/")
             syms.append((f, "".join(chr(int(c)) for c in n.split(".")) if n != "-" else "", int(v)))
     d["syms"] = syms
+    d["keys"] = [] if d.get("keys", "-") == "-" else ["".join(chr(int(c)) for c in k.split(".")) if k != "-" else "" for k in d["keys"].split(";")]
     return d
 
 
